@@ -23,7 +23,7 @@ sys.path.insert(0, vlib.VERIF)
 from translator import leaf, c01_gen, c01_dbparse as dbp
 
 QUICK_DBS = ["phreeqc.dat", "wateq4f.dat", "minteq.v4.dat", "Amm.dat"]
-MORE_DBS = ["minteq.dat", "llnl.dat", "core10.dat", "Tipping_Hurley.dat", "sit.dat", "iso.dat", "phreeqc_rates.dat", "Kinec_v3.dat", "Kinec.v2.dat", "Concrete_PHR.dat"]
+MORE_DBS = ["minteq.dat", "llnl.dat", "core10.dat", "Tipping_Hurley.dat", "iso.dat", "phreeqc_rates.dat", "Kinec_v3.dat", "Kinec.v2.dat"]
 SKIP_EL = {"H", "O", "E", "Alkalinity"}
 ID_CB, ID_MU, ID_ALK, ID_PH, ID_PE, ID_MU2, ID_CB2, ID_ALK2, ID_SR0 = 900001, 900002, 900003, 900004, 900005, 900006, 900007, 900008, 1000000
 PRELUDE = ("From Coq Require Import QArith List PArith FMapPositive.\n"
@@ -65,6 +65,20 @@ class DB:
                 continue
             self.defs[n] = [(-c / c0, x) for x, c in net.items() if c != 0]
         self.master_species = sorted(d["master_species"])
+        # valence states whose master species is used as "redox currency" in the defining reaction of ANOTHER master
+        # species (LLNL-style databases write redox reactions with O2: Cu+2 + 0.5 H2O = Cu+ + H+ + 0.25 O2).  The engine
+        # then books -0.25 O(0) per Cu+ and TOT("O(0)") is an accounting quantity (it can be negative), not a sum of
+        # species containing O(0); such totals are outside the model and not checked.
+        self.currency = set()
+        for n in self.usable:
+            s = d["species"][n]
+            if s["is_master"] and not s["identity"]:
+                own = {el.split("(")[0] for el in d["master_species"].get(n, [])}
+                for c, x in s["eq"]:
+                    if x != n and x not in ("e-", "H+", "H2O"):
+                        for el in d["master_species"].get(x, []):
+                            if "(" in el and el.split("(")[0] not in own:
+                                self.currency.add(el)
         self._coq = None
 
     def kvec(self, k):
@@ -174,6 +188,10 @@ def gen_solution(ctx, db, prim, pos, num):
         else:
             c = 10 ** rng.uniform(-7, -1.5)
         states = redox_states(db, e)
+        if e == "C" and "Alkalinity" in d["masters"] and rng.random() < 0.2 and 5.0 < ph < 10.5:
+            comps.append(["Alkalinity", min(c, 0.05), ""])       # carbonate given by its alkalinity
+            valence_input.append("C(4)")
+            continue
         if states and rng.random() < 0.3:
             # valence-state input (redox disequilibrium in the initial solution)
             for st in rng.sample(states, min(len(states), rng.randint(1, 2))):
@@ -347,6 +365,21 @@ def exempt_species(db, o, meta):
     return ex
 
 
+def missing_species(db, o, exempt):
+    """database species that are absent from the reported distribution although every other species of their reaction is
+    present (and the reaction is imposed in this calculation)"""
+    present = set(o["sp"]) | {"H2O", "e-"}
+    out = []
+    for n in db.usable:
+        if n in present or n in exempt:
+            continue
+        s = db.d["species"][n]
+        others = [x for c, x in s["eq"] if x != n]
+        if others and all(x in present for x in others):
+            out.append(n)
+    return out
+
+
 def q(x):
     return leaf.coq_Q(x)
 
@@ -374,7 +407,7 @@ def coq_case(db, o, exempt):
     if all(sp[n]["elts"] is not None for n in mol):
         for e, t in o["tot"].items():
             m = d["masters"].get(e)
-            if m is None or e in ("H", "O", "H(1)", "O(-2)") or m["species"] not in sid:
+            if m is None or e in ("H", "O", "H(1)", "O(-2)") or m["species"] not in sid or e in db.currency:
                 continue               # TOT("H(1)") / TOT("O(-2)") are not tracked by the engine (always 0); H, O include water
             el = e.split("(")[0]
             explicit, viarw = [], []
@@ -609,6 +642,12 @@ def process(ctx, jobs, res, leaves, stats, max_cases):
                 continue
             nchecked = (r[9][0] - 1) if len(r) > 9 and r[9] else 0
             stats["rows_checked"] += 1
+            for n in missing_species(db, o, exempt_species(db, o, meta))[:3]:
+                stats["species_missing"] = stats.get("species_missing", 0) + 1
+                ctx.violation("missing:%s:%s" % (dbname, n), "[%s, %s, state %s] species %s is not in the reported distribution although all species of its "
+                              "reaction (%s) are present" % (dbname, j["id"], o["state"], n, db.d["species"][n]["text"]),
+                              {"kind": "input", "database": dbname, "input_text": j["text"], "row_state": o["state"], "row_solution": o["soln"],
+                               "category": "missing", "name": n, "observed": "species absent", "expected": "species present with its mass-action molality"})
             stats["species_equations_checked"] += nchecked
             stats["phases_checked"] += len(o["ph"])
             ctx.case("%s|%s|%s|%s" % (dbname, o["state"], ",".join(meta["elements"]) if meta else j["id"], o["tk"]),
